@@ -197,6 +197,26 @@ def start_eager(variant, fn, env):
     return asynkit.eager(env.coro), None
 
 
+async def in_callback(loop, how, fn):
+    """run fn() inside a loop callback; an exception it raises is stored by fn's caller's box"""
+    def cb(*_):
+        assert asyncio.current_task() is None
+        try:
+            fn()
+        except BaseException as e:      # noqa: BLE001 — reported by the caller
+            raise_box.append(e)
+    raise_box = []
+    if how == "done_callback":
+        f = loop.create_future()
+        f.add_done_callback(cb)
+        f.set_result(None)
+    else:
+        loop.call_soon(cb)
+    await asyncio.sleep(0)
+    if raise_box:
+        raise raise_box[0]
+
+
 def run_single(case, snapshots=True):
     """Run one single-coroutine case on the real code.  Returns the list of snapshot strings."""
     fn = compile_body(case["prog"])
@@ -214,7 +234,16 @@ def run_single(case, snapshots=True):
         cm = None
         if mode == "E":
             try:
-                t, cm = start_eager(variant, fn, env)
+                caller = case.get("caller", "task")
+                if caller == "task":
+                    t, cm = start_eager(variant, fn, env)
+                else:
+                    # eager() called from an event-loop *callback* (no current task): call_soon, or
+                    # the done-callback of a future.  The callback is the only thing the loop runs
+                    # before the driver resumes, so snapshot 0 is still "right after eager() returned".
+                    box = []
+                    await in_callback(loop, caller, lambda: box.append(start_eager(variant, fn, env)))
+                    t, cm = box[0]
             except BaseException as e:     # eager() itself must never raise what the body raised
                 snaps.append(f"{log_text(env.log)} | !raised:{kind_of(e)} | "
                              + " ".join(fut_text(f) for f in env.futs) + f" | nt0 | {phase(env.coro)}")
@@ -332,10 +361,16 @@ def run_multi(case):
             child_envs[j] = e
             kids[j] = start(compile_body(case["children"][j]), e)
 
-        for i, p in enumerate(case["progs"]):
-            e = mkenv()
-            envs.append(e)
-            top[i] = start(compile_body(p), e)
+        def start_all():
+            for i, p in enumerate(case["progs"]):
+                e = mkenv()
+                envs.append(e)
+                top[i] = start(compile_body(p), e)
+
+        if mode == "E" and case.get("caller", "task") != "task":
+            await in_callback(loop, case["caller"], start_all)
+        else:
+            start_all()
         res["nt_after_start"] = len(asyncio.all_tasks()) - n0
         res["started_log"] = [log_text(e.log) for e in envs]
         for ev in case["events"]:
